@@ -31,5 +31,33 @@ package checks
 //@   ensures checkHash(arg0) in as(recv, "*Checks").usedChecks ==> result
 //@   modifies nothing
 
+//@ # ---------------------------------------------------------------- C21/C09: Commit persists every check used in the block
+//@ # the tree key of a check: the module prefix followed by the 32 bytes of its hash (ASSUMED injective)
+//@ ghost anyCheckHash() types.Hash
+//@ spec checkKey(h types.Hash) string = bytechar(mainPrefix) + bytestr(h)
+//@ axiom checkKeyInj: forall a types.Hash, b types.Hash :: checkKey(a) == checkKey(b) ==> a == b
+//@ func (*Checks).getOrderedHashes
+//@   trusted
+//@   ensures allkeys: forall h types.Hash :: (h in c.usedChecks) ==> exists i int :: 0 <= i && i < len(result) && result[i] == h
+//@   ensures onlykeys: forall i int :: 0 <= i && i < len(result) ==> (result[i] in c.usedChecks)
+//@   ensures once: forall i int, j int :: 0 <= i && i < j && j < len(result) ==> result[i] != result[j]
+//@   ensures result == nil || fresh(result)
+//@   modifies nothing
+//@ # every hash recorded as used during the block is written to the tree (a non-empty value under its own key), and the
+//@ # in-memory set is emptied only of hashes that have been written
+//@ func (*Checks).Commit
+//@   serves C21 C09
+//@   let h = anyCheckHash()
+//@   requires c != nil && c.usedChecks != nil && db != nil
+//@   ensures [C21,C09] persisted: old(h in c.usedChecks) ==> len(mtreeVal(db, checkKey(h))) == 1
+//@   ensures cleared: !(h in c.usedChecks)
+//@   loop 0 invariant idx: -1 <= rangeindex && (rangeindex < len(hashes) || (rangeindex == -1 && len(hashes) == 0))
+//@   loop 0 invariant keys: forall i int :: 0 <= i && i < len(hashes) ==> old(hashes[i] in c.usedChecks)
+//@   loop 0 invariant pending: forall i int :: rangeindex < i && i < len(hashes) ==> (hashes[i] in c.usedChecks)
+//@   loop 0 invariant once: forall i int, j int :: 0 <= i && i < j && j < len(hashes) ==> hashes[i] != hashes[j]
+//@   loop 0 invariant subset: forall k types.Hash :: (k in c.usedChecks) ==> old(k in c.usedChecks)
+//@   loop 0 invariant gone: forall i int :: 0 <= i && i <= rangeindex ==> !(hashes[i] in c.usedChecks)
+//@   loop 0 invariant done: old(h in c.usedChecks) && !(h in c.usedChecks) ==> len(mtreeVal(db, checkKey(h))) == 1
+
 //@ # ---------------------------------------------------------------- lock discipline (C25)
 //@ guarded Checks.usedChecks by lock
